@@ -504,3 +504,33 @@ def worker_thread_obligations(ctx):
             core, neg = _tp(t.test)
             ctx.check(core == 'self.pending.empty()' and neg, f'{rx.qualname}:re-queue runs while something is parked', t.test, 'while not self.pending.empty()',
                       f'`{src(t.test)}`: the re-queue loop runs only when nothing is parked (and then blocks the receive thread in pending.get())', rx)
+
+
+@rule('C11.R11', min_instances=2)
+def shutdown_flag_and_io_teardown(ctx):
+    """disconnect(shutdown): the shutdown event is set exactly on the side where shutdown is requested (waiting callers then
+    get 'connection shut down', the reconnect thread stops), `_running` is cleared first, and the connection object is closed
+    and forgotten (io.disconnect(); self.io = None) so that no worker can use a half-closed connection"""
+    m = ctx.m
+    f = m.method(C, 'disconnect', inherited=False)
+    ctx.analysed(f)
+    cfg = CFG(f.node, m, f.module)
+    p = f.node.args.args[1].arg if len(f.node.args.args) > 1 else 'shutdown'
+    sets = {i for c in calls_in(f.node) if call_attr(c) == 'set' and '_shutdown' in src(c.func) for i in cfg.node_of(c)}
+    tests = [t for t in cfg.nodes if t.kind == 'test' and _tp(t.ast)[0] == p]
+    ok = bool(sets) and bool(tests)
+    for t in tests:
+        on, _ = _side(cfg, t, True)
+        off, _ = _side(cfg, t, False)
+        ok = ok and sets <= on and not (sets & off - on)
+    ctx.check(ok, f'{f.qualname}:shutdown event set iff shutdown is requested', f.node, '_shutdown.set() on the shutdown side',
+              'the shutdown event is not set exactly when disconnect(shutdown=True) is called: waiting callers are told "connection closed" and the reconnect '
+              'thread keeps reconnecting a client that was shut down (or a dropped connection is never reconnected)', f)
+    closes = [c for c in calls_in(f.node) if call_attr(c) == 'disconnect' and src(c.func.value) == 'self.io']
+    forget = [s for t, v, s in attr_stores(f.node) if t.attr == 'io' and dotted(t.value) == 'self' and isinstance(v, ast.Constant) and v.value is None]
+    ctx.check(bool(closes) and bool(forget), f'{f.qualname}:connection closed and forgotten', f.node, 'self.io.disconnect(); self.io = None',
+              'the connection object is not closed / not forgotten on disconnect', f)
+    first = f.node.body[0] if not (isinstance(f.node.body[0], ast.Expr) and isinstance(f.node.body[0].value, ast.Constant)) else f.node.body[1]
+    okr = isinstance(first, ast.Assign) and src(first.targets[0]) == 'self._running' and isinstance(first.value, ast.Constant) and first.value.value is False
+    ctx.check(okr, f'{f.qualname}:_running cleared first', first, 'self._running = False is the first statement',
+              f'`{src(first)}` precedes the clearing of _running: the workers go on taking requests while the connection is being torn down', f)
